@@ -64,7 +64,8 @@ class Sym(V):
     ('prop', 'min'), ('elem', <iterable key>, i)."""
 
     def __init__(self, name: str, kind: Optional[str] = None, origin: Tuple[Any, ...] = (),
-                 maybe_nil: bool = False, cls: Any = None) -> None:
+                 maybe_nil: bool = False, cls: Any = None, exact: bool = False) -> None:
+        self.exact = exact      # kind is the exact runtime class (not a subclass)
         self.name = name
         self.kind = kind
         self.origin = origin
